@@ -377,7 +377,7 @@ def run(ck):
                       "distinct by md5 of the history line." % (3 if quick else 4, VARIANTS,
                                                                " plus a PRNG sample of the 4-operation histories" if quick else ""))
     proofs_ok = ck.proofs(["theories/WGLRun.vo"])
-    binp = ck.go_test_bin("lcm/porcupine", ["lcm/porcupine/zz_verif_wgl_test.go"])
+    binp = ck.go_test_bin("lcm/porcupine", ["lcm/porcupine/zz_verif_wgl_test.go", "lcm/porcupine/zz_verif_wglstress_test.go"])
     if binp is None:
         return
     rng = ck.rng
@@ -468,6 +468,25 @@ def run(ck):
     v = check_batch(ck, binp, rlines, "rand", stats, groups)
     if v is None:
         return
+    # ---------------- stress search: millions of small, highly concurrent histories over a tiny value set, real checker vs a subset-DP
+    # search inside the executor; it only FINDS candidates - every disagreeing history goes through check_batch (python oracle,
+    # monitors) and the verified model like any other history
+    nstress = 2500000 if quick else 60000000
+    sout = os.path.join(ck.scratch(), "stress-out.txt")
+    rcs, outs = ck.run_bin(binp, "TestVerifWGLStress", {"VERIF_OUT": sout, "VERIF_STRESS_N": str(nstress), "VERIF_SEED": str(ck.seed % 1000003)}, timeout=3000)
+    if rcs != 0 or not os.path.exists(sout):
+        ck.violation("stress executor failed to run", {"kind": "executor", "rc": rcs, "log_tail": outs[-3000:]}, found_input=False)
+        return
+    sl = open(sout).read().splitlines()
+    ck.cov["stress_search"] = {"histories": int(sl[0].split()[1]) if sl and sl[0].startswith("STRESS") else 0, "candidates": len(sl) - 1,
+                                 "what": "4..10 operations, 2..6 in flight, values from {1} / {1,2} / {0,1} / {1,2,3}, writes dominate, dense or sparse ids; "
+                                         "real CheckEvents vs subset-DP search in the executor; candidates re-checked by the python oracle and the verified model"}
+    cands = sl[1:41]
+    if cands:
+        vc = check_batch(ck, binp, cands, "stress-cand", stats)
+        if vc is None:
+            return
+        coq_items += [(l, x) for (l, x) in zip(cands, vc) if x is not None]
     ncoq_r = 2000 if quick else 12000
     coq_items += [(l, x) for (l, x) in list(zip(rlines, v))[:ncoq_r] if x is not None]
     coq_items += [(l, x) for (l, x) in list(zip(rlines, v))[long_first:long_first + (16 if quick else 120)] if x is not None]
